@@ -705,6 +705,10 @@ func genCase(rng *rand.Rand, w window, valid bool, maxv int) *snapCase {
 			rings, fam = fr, "far"
 		}
 	}
+	// POLYGON EMPTY: a polygon of no rings at all
+	if rng.Intn(80) == 0 && (onlyFamily == "" || onlyFamily == "empty") {
+		rings, fam = [][]ipt{}, "empty"
+	}
 	if rings == nil {
 		return nil
 	}
